@@ -260,12 +260,20 @@ def cron_poll_sequences(ctx: Ctx, drv: LeanDriver, fam: list[list[str]]) -> None
 # B. cron on the real stores: check_time_based_triggers over poll sequences; the property itself
 # ================================================================================================
 
+STORE_SETTINGS_CHANGED: list[tuple] = []
+
+
 def cron_store_run(kind: str, tmp: str, app_id: str, f: list[str], cfg: CronCfg, last: int | None, polls: list[int]) -> list[int]:
     """fired instants when a fresh trigger store of `kind` is polled at `polls` (one runner)"""
     app = fresh_app(kind, tmp, app_id)
     conf = Config([CondSpec("cron", fields=f, cfg=cfg)], [TrigSpec("target", [0], "and", [])])
     b = Built(app, conf)
     cid = conf.conds[0].cid
+    # what the store hands back is the condition that was registered, setting by setting (0 and False included)
+    back = app.trigger.get_condition(cid)
+    have = None if back is None else (back.check_window_seconds, back.min_interval_seconds, back.precision_tolerance_seconds, bool(back.strict_timing))
+    if have != (cfg.window, cfg.min_interval, cfg.tolerance, bool(cfg.strict)):
+        STORE_SETTINGS_CHANGED.append((kind, " ".join(f), (cfg.window, cfg.min_interval, cfg.tolerance, bool(cfg.strict)), have))
     if last is not None:
         app.trigger.store_last_cron_execution(cid, to_dt(last))
     fired = []
@@ -306,6 +314,14 @@ def classify_cron(bc: BruteCron, cfg: CronCfg, last: int | None, polls: list[int
 
 def cron_on_stores(ctx: Ctx, drv: LeanDriver, fam: list[list[str]]) -> None:
     cases = poll_cases(ctx, fam, 16 if ctx.quick else 100)
+    # directed: every timing setting at 0 / False at least once, with polls a few seconds around consecutive minutes
+    T0 = 1_700_000_040_000_000
+    dense = [T0 + d * US_SEC for d in (-5, 5, 35, 65, 125, 240, 300, 320, 600, 620)]
+    for cfg0 in (CronCfg(window=60, min_interval=0, tolerance=30, strict=False), CronCfg(window=0, min_interval=50, tolerance=30, strict=False),
+                 CronCfg(window=60, min_interval=50, tolerance=0, strict=True), CronCfg(window=0, min_interval=0, tolerance=0, strict=False)):
+        cases.append(("* * * * *".split(), cfg0, None, dense, "dense-zero-settings"))
+        cases.append(("*/5 * * * *".split(), cfg0, T0 - 600 * US_SEC, dense, "dense-zero-settings"))
+    STORE_SETTINGS_CHANGED.clear()
     lines, want, meta = [], [], []
     nviol = Counter()
     for i, (f, cfg, last, polls, style) in enumerate(cases):
@@ -335,6 +351,9 @@ def cron_on_stores(ctx: Ctx, drv: LeanDriver, fam: list[list[str]]) -> None:
     bad = [(m, l[:160], w, o) for m, l, w, o in zip(meta, lines, want, outs) if w != o]
     ctx.obligation("correspondence: check_time_based_triggers over poll sequences on MemTrigger and SQLiteTrigger == Lean cron pass", not bad,
                    f"{len(bad)} of {len(lines)} differ, first {bad[:1]}")
+    for kind, expr, want_cfg, have in STORE_SETTINGS_CHANGED[:3]:
+        ctx.report(f"cron-settings-changed-by-store[{kind}]", f"{kind}: cron condition '{expr}' registered with (window, min interval, tolerance, strict) = {want_cfg} comes back from the store as {have}",
+                   {"family": "cron-settings", "backend": kind, "expr": expr, "registered": list(want_cfg), "stored": None if have is None else list(have)})
     ctx.notes["cron_store_cases"] = len(cases) * 2
     ctx.notes["cron_store_property_failures"] = dict(nviol)
 
@@ -794,6 +813,53 @@ def scenario(name: str, kind: str, tmp: str) -> tuple[bool, str]:
             second = len(b.new_launches())
         return (first, second) != (1, 0), (f"AND trigger on events `A` and `B`: one occurrence of each, loop -> {first} launch(es); the same two occurrences reported again "
                                            f"in the other order 5 s later, loop -> {second} more launch(es)")
+    if name == "occurrence-reported-during-iteration":
+        # an occurrence is reported WHILE a loop iteration runs - right before its k-th access to the trigger store, every k:
+        # it is launched by that iteration or a later one, never deleted unevaluated
+        worst = None
+        for k in range(0, 16):
+            b = _single(kind, tmp, f"k{k}", [CondSpec("event", code="ping")], [TrigSpec("target", [0], "or", ["c:event"])])
+            o = Occurrences(b)
+            trig = b.app.trigger
+            n = {"ops": 0, "done": False}
+            saved = {}
+            with VirtualClock(T0) as clk:
+                o.event("ping", "1")
+
+                def wrap(opname):  # type: ignore[no-untyped-def]
+                    real = getattr(trig, opname)
+
+                    def f(*a, **kw):  # type: ignore[no-untyped-def]
+                        if n["ops"] == k and not n["done"]:
+                            n["done"] = True
+                            o.event("ping", "2")
+                        n["ops"] += 1
+                        return real(*a, **kw)
+                    saved[opname] = real
+                    setattr(trig, opname, f)
+
+                for opname in STORE_OPS:
+                    if hasattr(trig, opname):
+                        wrap(opname)
+                try:
+                    trig.trigger_loop_iteration()
+                finally:
+                    for opname in saved:
+                        delattr(trig, opname)
+                if not n["done"]:
+                    break                      # the iteration has fewer than k store accesses
+                for _ in range(2):
+                    clk.advance(2 * US_SEC)
+                    trig.trigger_loop_iteration()
+                tags = sorted(x[1] for x in b.launches())
+                # (which arguments the two launches carry when both occurrences are pending in ONE iteration is the listed finding
+                #  provider-takes-first-pending-context; here the NUMBER of launches is judged)
+                if len(tags) != 2 and worst is None:
+                    worst = (k, tags, len(b.valid_ids()))
+        if worst:
+            return True, (f"event `ping`(n=2) reported during a loop iteration, right before its store access #{worst[0]} (n=1 was pending): after that iteration and two more the "
+                          f"launches carry n={worst[1]}, {worst[2]} occurrence(s) still pending - the occurrence was dropped without being evaluated")
+        return False, "every occurrence reported during an iteration was launched"
     if name == "same-exception-type-two-invocations":
         b = _single(kind, tmp, "a", [CondSpec("exception", types=["ValueError"])], [TrigSpec("target", [0], "or", ["c:exception"])])
         o = Occurrences(b)
@@ -842,6 +908,7 @@ SCENARIOS = {
     "shared-occurrence-relaunched-after-expiry": "relaunch-after-claim-expiry:occurrence-kept-for-unready-trigger",
     "kept-occurrence-rejoins-context": "launched-occurrence-rejoins-context:occurrence-kept-for-unready-trigger",
     "and-occurrences-redelivered-in-other-order": "and-run-identity-depends-on-delivery-order",
+    "occurrence-reported-during-iteration": "occurrence-reported-during-iteration-is-dropped",
     "same-exception-type-two-invocations": "exception-occurrence-identity-ignores-invocation",
     "cron-first-poll-off-schedule": "cron-first-poll-fires-off-schedule",
     "cron-short-window": "cron-window-shorter-than-a-minute-ignored",
